@@ -207,3 +207,7 @@ import props_c18
 import props_c19
 props_c18.register(_sys.modules[__name__])
 props_c19.register(_sys.modules[__name__])
+import props_c03
+props_c03.register(_sys.modules[__name__])
+import props_c01
+props_c01.register(_sys.modules[__name__])
